@@ -177,6 +177,8 @@ func c05Expr(g *xgen.G, env *xgen.Env) string {
 		"/*/*[2]", "//a/b[last()]", "*/*[position() = 2]", "/*/*/*[1]", "//*/*[last() - 1]", "//c/*[2][@id]",
 		"name()", "name(*)", "name(//*[2])", "concat(name(), '|', local-name(*), '|', name(..))", "//*[name() = name(..)]", "string-join(//@*, name())",
 		"replace(., string(@id), string(@k))", "replace(string(*), concat(@id, ''), name())", "matches(., string(@k))", "//*[matches(., concat('^', @id))]",
+		// patterns built at evaluation time that do NOT compile (the complaint is deliberate; whatever remembers it is shared)
+		"matches(., concat('[', @id))", "replace(., concat('(', name()), 'x')", "//*[matches(., concat(@id, '**'))]", "matches(string(.), concat('a{', count(*), ',1}'))", "replace(., concat('\\', ''), '-')",
 		"floor(//b * 2)", "string(//b + 1)", "not(b = c)", "boolean(a and b)", "count(//a[b = c or @id])", "sum(//b[. = .]) + count(//a)",
 	}
 	switch r := g.Intn(10); {
@@ -261,7 +263,10 @@ func c05Round(c *Case) {
 			// expression no one has used before: the first load of a pattern happens concurrently
 			u := fmt.Sprintf("u%dx%d", c.Seed, c.Index)
 			fresh := &c05Op{g: gi, kind: "fresh-pattern", other: fmt.Sprintf("concat(string(matches('%sxx', '^%sx*$')), replace('%s-', '(%s)(-)', '$2$1'))", u, u, u, u), want: "string(true-" + u + ")"}
-			ops = append([]*c05Op{fresh}, ops...)
+			// ... and one whose pattern, built at evaluation time, does not compile: the deliberate complaint is the same
+			// for everyone, and whatever the engine remembers about the failure is written concurrently
+			bad := &c05Op{g: gi, kind: "fresh-pattern", other: fmt.Sprintf("matches('x', concat('[%s', substring('(', 1, 1)))", u), want: "PANIC*"}
+			ops = append([]*c05Op{fresh, bad}, ops...)
 		}
 		plan = append(plan, ops)
 	}
@@ -353,6 +358,15 @@ func c05Round(c *Case) {
 		}
 		if op.kind == "fresh-pattern" {
 			c.Count("op:fresh-pattern")
+			if op.want == "PANIC*" {
+				// a deliberate complaint (not a Go runtime error), the same in every goroutine
+				if !strings.HasPrefix(op.got, "PANIC(") || strings.Contains(op.got, "runtime.") || strings.Contains(op.got, "runtime error") {
+					c.Violation("CONCURRENT-RESULT-DIFFERS-FROM-SOLO", map[string]interface{}{"expr": op.other, "operation": "a pattern built at evaluation time that does not compile, first used by all goroutines at once", "goroutine": op.g, "goroutines": ng,
+						"concurrent": op.got, "solo": "a deliberate complaint about the pattern"})
+					return
+				}
+				continue
+			}
 			if op.got != op.want {
 				c.Violation("CONCURRENT-RESULT-DIFFERS-FROM-SOLO", map[string]interface{}{"expr": op.other, "operation": "every goroutine compiles and evaluates this expression first; its regular expressions were never used before", "goroutine": op.g, "goroutines": ng,
 					"concurrent": op.got, "solo": op.want})
